@@ -11,7 +11,7 @@
 (* (one product per call, the compositional reading of each call);         *)
 (* SemAgrees states that it coincides with the flattened semantics.        *)
 (***************************************************************************)
-EXTENDS LwCircuitDefs
+EXTENDS LwCircuitDefs, LwFock
 
 CONSTANTS
    Scenario,      \* "single" : object 1 = empty circuit with nu \in NUs
@@ -43,10 +43,13 @@ CONSTANTS
    DispArgs,      \* display option tuples tried: <<type, display_loss, show_values, label-length offset or 99 for None>>
    DispMin,       \* display calls only after at least this many calls
    ModeCap,       \* valid mode arguments tried are 0 .. min(nu, ModeCap) - 1
+   MaxPhot,       \* read actions: user photons injected (0..MaxPhot)
+   PSU,           \* read actions: post-selection rule sets tried; a rule set is a set of <<modes, allowed counts>> (tuples)
    RejLast        \* TRUE: a rejected call ends the program (a rejected call changes nothing, so nothing new follows it)
 
-VARIABLES circ, sem, prog, op, pval
-vars == <<circ, sem, prog, op, pval>>
+VARIABLES circ, sem, prog, op, pval,
+          res        \* result of the last read action (simulate / sampler distribution / analyze / quick sampler), else <<>>
+vars == <<circ, sem, prog, op, pval, res>>
 Objs == 1..NObj
 
 \* ---- scenario templates ---------------------------------------------------
@@ -71,6 +74,7 @@ Init == /\ circ \in InitCircs
         /\ prog = <<>>
         /\ op = "init"
         /\ pval = ParInit
+        /\ res = <<>>
 
 Live(o) == circ[o].nu >= 0
 RejCount == Len(SelectSeq(prog, LAMBDA e : e[1] = "rej"))
@@ -97,12 +101,12 @@ Accept(t, name, args, c2, M2) ==
    /\ sem' = [sem EXCEPT ![t] = SemNew(c2, M2)]
    /\ prog' = Append(prog, <<"ok", name, t>> \o args)
    /\ op' = name
-   /\ UNCHANGED pval
+   /\ UNCHANGED pval /\ res' = <<>>
 Reject(t, name, args) ==
    /\ RejCount < MaxRej
    /\ (name \in CompKinds => NComp < MaxComp)
    /\ StageOk(name, t, args)
-   /\ UNCHANGED <<circ, sem, pval>>
+   /\ UNCHANGED <<circ, sem, pval>> /\ res' = <<>>
    /\ prog' = Append(prog, <<"rej", name, t>> \o args)
    /\ op' = "rej"
 AppendOps(t, c2, newOps) == AppendAllSem(circ[t], newOps, sem[t], pval)
@@ -164,7 +168,7 @@ DoCopyFrozen(t, s) ==
       /\ circ' = [circ EXCEPT ![t] = c2]
       /\ sem' = [sem EXCEPT ![t] = IF Numeric THEN SemOrErr(c2, <<>>) ELSE <<>>]     \* evaluated WITHOUT any parameter: it has none
       /\ prog' = Append(prog, <<"ok", "copyf", t, s>>)
-      /\ op' = "copyf" /\ UNCHANGED pval
+      /\ op' = "copyf" /\ UNCHANGED pval /\ res' = <<>>
 \* Parameter.set on parameter p (accepted; bounds are LwParams' business): every circuit that mentions p reports the new value
 DoSetPar(p, v) ==
    /\ pval[p] # v
@@ -172,12 +176,12 @@ DoSetPar(p, v) ==
    /\ UNCHANGED circ
    /\ sem' = [o \in Objs |-> IF Numeric /\ Live(o) /\ p \in ParamsOf(circ[o].ops) THEN SemOrErr(circ[o], pval') ELSE sem[o]]
    /\ prog' = Append(prog, <<"ok", "setpar", 0, p, v>>)
-   /\ op' = "setpar"
+   /\ op' = "setpar" /\ res' = <<>>
 \* display: read-only; accepted iff the type is known and the label list (if any) has one entry per user-visible mode
 DisplayOk(c, a) == a[1] \in {"svg", "mpl"} /\ (a[4] = 99 \/ a[4] = 0)
 DoDisplay(t, a) ==
    /\ Len(prog) >= DispMin
-   /\ UNCHANGED <<circ, sem, pval>>
+   /\ UNCHANGED <<circ, sem, pval>> /\ res' = <<>>
    /\ prog' = Append(prog, <<IF DisplayOk(circ[t], a) THEN "ok" ELSE "rej", "display", t>> \o a)
    /\ op' = "display"
 \* the in-place rewrites: the abstract circuit keeps a representative op list; the contract is that the
@@ -199,6 +203,65 @@ DoEdit(t) ==
    /\ LET c2 == PsApply(circ[t], 0, 2, 0) IN Accept(t, "edit", <<>>, c2, AppendOps(t, c2, <<OpPs(1, 2)>>))
 DoCompress(t) == Accept(t, "compress", <<>>, circ[t], sem[t])
 DoNonAdj(t)   == Accept(t, "nonadj", <<>>, circ[t], sem[t])
+
+
+\* ---- read actions: the emulator objects as functions of the abstract circuit (C03, C04, C05) ----
+\* spec indices: user line l = l, ancilla j = nu + j, loss lines after that.
+FreeInIdx(c)  == SortedSeq((1..c.nu) \ HIn(c))
+FreeOutIdx(c) == SortedSeq((1..c.nu) \ HOut(c))
+FixedIn(c)  == {<<c.hord[k][1], c.hord[k][3]>> : k \in 1..Len(c.hord)} \cup {<<c.nu + j, c.anc[j]>> : j \in 1..Len(c.anc)}
+FixedOut(c) == {<<c.hord[k][2], c.hord[k][3]>> : k \in 1..Len(c.hord)} \cup {<<c.nu + j, c.anc[j]>> : j \in 1..Len(c.anc)}
+FullIn(c, ins)   == FullOcc(DimL(c), FreeInIdx(c), ins, FixedIn(c))        \* herald photons on heralded inputs, vacuum on loss lines
+FullOut(c, outs) == FullOcc(DimL(c), FreeOutIdx(c), outs, FixedOut(c))
+HeraldPhot(c) == FoldLeft(LAMBDA a, h : a + h[3], 0, c.hord) + FoldLeft(LAMBDA a, n : a + n, 0, c.anc)
+InputOk(c, ins) == Len(ins) = InputModes(c) /\ \A k \in 1..Len(ins) : ins[k] >= 0
+\* Simulator.simulate(ins) with outputs = None: amplitude of every output of the same photon number
+SimTable(c, M, ins) == [o \in FockBasis(InputModes(c), NPhot(ins)) |-> Amp(M, FullIn(c, ins), FullOut(c, o))]
+\* Sampler.probability_distribution (ideal source): every pattern on the circuit's own modes (spec order users, ancillas) with
+\* its total probability, summed over every way the remaining photons can sit in the loss lines; common denominator L
+DistL(c, ins) == Fact(NPhot(ins) + HeraldPhot(c)) * Fact(NPhot(ins) + HeraldPhot(c))
+SamplerDist(c, M, ins) ==
+   LET N == NPhot(ins) + HeraldPhot(c)   fin == FullIn(c, ins)   L == DistL(c, ins)   d == Dim(c)   nl == DimL(c) - d
+       pats == UNION {FockBasis(d, k) : k \in 0..N}
+   IN [p \in pats |-> RSumSet(FockBasis(nl, N - NPhot(p)), LAMBDA ls : ScaledProb(Prob(M, fin, p \o ls), L))]
+\* post-selection: every rule <<modes, counts>> must hold (modes are API numbers of the non-heralded modes)
+PSHolds(ps, o) == \A r \in ps : FoldLeft(LAMBDA a, m : a + o[m + 1], 0, r[1]) \in {r[2][k] : k \in 1..Len(r[2])}
+\* pattern on the circuit's modes that carries output o on the non-heralded outputs and the herald numbers elsewhere
+WithHeralds(c, o) == FullOcc(Dim(c), FreeOutIdx(c), o, FixedOut(c))
+\* Analyzer.analyze(ins): accepted outputs (post-selection true; photon number n, or <= n for a lossy circuit) and their probabilities
+AnalyzerTable(c, M, ins, ps) ==
+   LET n == NPhot(ins)   dist == SamplerDist(c, M, ins)
+       outs == {o \in (IF NLoss(c.ops) = 0 THEN FockBasis(InputModes(c), n) ELSE UNION {FockBasis(InputModes(c), k) : k \in 0..n}) : PSHolds(ps, o)}
+   IN [o \in outs |-> dist[WithHeralds(c, o)]]
+\* QuickSampler.probability_distribution before renormalisation: heralds satisfied, post-selection true, no lost photon,
+\* at most one photon per mode for threshold detection (pnr = FALSE)
+QuickTable(c, M, ins, ps, pnr) ==
+   LET n == NPhot(ins)   dist == SamplerDist(c, M, ins)   L == DistL(c, ins)
+       outs == {o \in FockBasis(InputModes(c), n) : PSHolds(ps, o) /\ (pnr \/ \A k \in 1..Len(o) : o[k] <= 1)}
+       lossless(o) == ScaledProb(Prob(M, FullIn(c, ins), FullOut(c, o)), L)
+   IN [o \in outs |-> lossless(o)]
+PSFits(c, ps) == \A r \in ps : \A k \in 1..Len(r[1]) : r[1][k] < InputModes(c)
+Inputs(c) == UNION {FockBasis(InputModes(c), k) : k \in 0..MaxPhot}
+BadInputs(c) == {[k \in 1..(InputModes(c) + 1) |-> IF k = 1 THEN 1 ELSE 0]}
+                \cup (IF InputModes(c) > 0 THEN {[k \in 1..InputModes(c) |-> IF k = 1 THEN -1 ELSE 0]} ELSE {})
+Read(t, name, args, ok, value) ==
+   /\ sem[t] # <<>>
+   /\ UNCHANGED <<circ, sem, pval>>
+   /\ prog' = Append(prog, <<IF ok THEN "ok" ELSE "rej", name, t>> \o args)
+   /\ op' = name
+   /\ res' = IF ok THEN value ELSE <<>>
+DoSimulate(t, ins)        == Read(t, "simulate", <<ins>>, InputOk(circ[t], ins), SimTable(circ[t], sem[t], ins))
+DoSamplerDist(t, ins)     == Read(t, "sdist", <<ins>>, InputOk(circ[t], ins), <<DistL(circ[t], ins), SamplerDist(circ[t], sem[t], ins)>>)
+DoAnalyze(t, ins, ps)     == Read(t, "analyze", <<ins, ps>>, InputOk(circ[t], ins), <<DistL(circ[t], ins), AnalyzerTable(circ[t], sem[t], ins, ps)>>)
+DoQuick(t, ins, ps, pnr)  == Read(t, "quick", <<ins, ps, pnr>>, InputOk(circ[t], ins) /\ NPhot(ins) > 0,
+                                  <<DistL(circ[t], ins), QuickTable(circ[t], sem[t], ins, ps, pnr)>>)
+ReadKinds == {"simulate", "sdist", "analyze", "quick"}
+Reads(t) ==
+   LET c == circ[t] IN
+      \/ "simulate" \in Kinds /\ \E ins \in Inputs(c) \cup (IF MaxRej > 0 THEN BadInputs(c) ELSE {}) : DoSimulate(t, ins)
+      \/ "sdist" \in Kinds /\ \E ins \in Inputs(c) : DoSamplerDist(t, ins)
+      \/ "analyze" \in Kinds /\ \E ins \in Inputs(c), ps \in PSU : PSFits(c, ps) /\ DoAnalyze(t, ins, ps)
+      \/ "quick" \in Kinds /\ \E ins \in Inputs(c), ps \in PSU, pnr \in BOOLEAN : PSFits(c, ps) /\ DoQuick(t, ins, ps, pnr)
 
 \* ---- argument universes ---------------------------------------------------
 \* every combination of valid values, plus calls with exactly ONE invalid argument (others canonical)
@@ -245,12 +308,13 @@ Calls(t) ==
          \/ "copy" \in Kinds /\ \E n \in Objs : DoCopy(n, t)
 Next ==
    /\ Len(prog) < MaxLen
-   /\ (RejLast => op \notin {"rej", "display"})
+   /\ (RejLast => op \notin ({"rej", "display"} \cup ReadKinds))
    /\ \E t \in Targets :
       /\ Live(t)
-      \* when display is in scope the last slot of every program is reserved for it
+      \* when display / read actions are in scope the last slot of every program is reserved for them
       /\ \/ "display" \in Kinds /\ \E a \in DispArgs : DoDisplay(t, a)
-         \/ ("display" \in Kinds => Len(prog) < MaxLen - 1) /\ Calls(t)
+         \/ Kinds \cap ReadKinds # {} /\ Len(prog) >= DispMin /\ Reads(t)
+         \/ (Kinds \cap ({"display"} \cup ReadKinds) # {} => Len(prog) < MaxLen - 1) /\ Calls(t)
 Spec == Init /\ [][Next]_vars
 
 \* ---- properties -----------------------------------------------------------
@@ -279,7 +343,22 @@ TargetOf(e) == e[3]
 FrameProp == [][IF op' = "setpar"
                 THEN circ' = circ /\ \A o \in Objs : (Live(o) /\ prog'[Len(prog')][4] \notin ParamsOf(circ[o].ops)) => sem'[o] = sem[o]
                 ELSE \A o \in Objs : (o # TargetOf(prog'[Len(prog')])) => (circ'[o] = circ[o] /\ sem'[o] = sem[o])]_vars
-RejectFrame == [][op' \in {"rej", "display"} => UNCHANGED <<circ, sem, pval>>]_vars
+RejectFrame == [][op' \in ({"rej", "display"} \cup ReadKinds) => UNCHANGED <<circ, sem, pval>>]_vars
+\* ---- design-level theorems about the read actions (C03, C04, C05) ----
+LastT == prog[Len(prog)][3]
+\* C03: for a lossless circuit the amplitudes from one input to all outputs of the same photon number form a unit vector
+\*      (heralded circuits excluded: heralding is a projection)
+SimUnit == (op = "simulate" /\ res # <<>> /\ NLoss(circ[LastT].ops) = 0 /\ HeraldPhot(circ[LastT]) = 0 /\ Len(circ[LastT].hord) = 0 /\ Len(circ[LastT].anc) = 0) =>
+              LET L == Fact(NPhot(prog[Len(prog)][4])) * Fact(NPhot(prog[Len(prog)][4])) IN
+              RSumSet(DOMAIN res, LAMBDA o : ScaledProb(<<RAbsSq(res[o][1]), res[o][2]>>, L)) = RInt(L)
+\* C04: non-negative, sums to one, never more photons than injected
+DistNorm == (op = "sdist" /\ res # <<>>) =>
+              /\ RSumSet(DOMAIN res[2], LAMBDA p : res[2][p]) = RInt(res[1])
+              /\ \A p \in DOMAIN res[2] : IsReal(res[2][p]) /\ RSign(res[2][p]) >= 0
+\* C05: analyzer probabilities lie in [0,1] and their total (the performance) is at most one
+AnalyzeBound == (op = "analyze" /\ res # <<>>) => RLeq(RSumSet(DOMAIN res[2], LAMBDA o : res[2][o]), RInt(res[1]))
+\* C05: the quick sampler keeps only lossless heralded accepted outputs: its mass is at most the analyzer's
+QuickBound == (op = "quick" /\ res # <<>>) => RLeq(RSumSet(DOMAIN res[2], LAMBDA o : res[2][o]), RInt(res[1]))
 \* C10: a frozen copy mentions no parameter and keeps the values of the moment it was taken
 FrozenProp == [][op' = "copyf" => LET t == TargetOf(prog'[Len(prog')])  s == prog'[Len(prog')][4] IN
                     ParamsOf(circ'[t].ops) = {} /\ (Numeric => sem'[t] = sem[s]) /\ circ'[s] = circ[s]]_vars
